@@ -143,6 +143,8 @@ pub fn base(tier: Tier) -> Profile {
         full_readback: false,
         interleave: true,
         grid: None,
+        probes: 0,
+        probes_all: !q,
         end_on_mapfull: false,
         crash_mode: false,
     }
@@ -170,6 +172,7 @@ pub fn profile(name: &str, tier: Tier) -> Option<Profile> {
             } else {
                 vec![(3, Const(1)), (2, Range(2, 16))]
             };
+            p.probes = 10;
         }
         // unlimited budget = exact neighbours
         "c02" => {
@@ -218,6 +221,7 @@ pub fn profile(name: &str, tier: Tier) -> Option<Profile> {
             p.full_readback = true;
             p.queries = Range(0, 1);
             p.later_ops.overwrite = 30;
+            p.probes = 35;
             p.after_round =
                 if q { AfterRound { keep: 3, commit: 4, abort: 1 } } else { AfterRound { keep: 1, commit: 6, abort: 2 } };
         }
@@ -235,6 +239,7 @@ pub fn profile(name: &str, tier: Tier) -> Option<Profile> {
             p.later_ops.del_absent = 15;
             p.later_ops.clear = 3;
             p.queries = Range(0, 1);
+            p.probes = 80;
             p.after_round = AfterRound { keep: 2, commit: 5, abort: 2 };
         }
         // indexes never affect each other
@@ -245,6 +250,7 @@ pub fn profile(name: &str, tier: Tier) -> Option<Profile> {
             p.p_random_indexes = if q { 0.15 } else { 0.5 };
             p.p_same_config = 0.6;
             p.dump_every_op = true;
+            p.probes = 10;
             p.later_ops.clear = 4;
             p.p_build_all = 0.2;
             p.queries = Range(1, 2);
@@ -485,6 +491,7 @@ pub fn profile(name: &str, tier: Tier) -> Option<Profile> {
             p.default_cases = if q { 100 } else { 1000 };
             small(&mut p, tier);
             p.malformed_rate = 0.6;
+            p.probes = 80;
             p.dump_every_op = true;
             p.n_indexes = Mix(vec![(2, Const(1)), (2, Const(2)), (1, Const(3))]);
             p.first_ops.wrong_dim = 8;
